@@ -128,6 +128,9 @@ def handle (args : List String) : String :=
       if op = "s2c" then
         if l.size ≠ (dout * dout) * (din * din) then return "bad-op"
         return flat (din * dout) (din * dout) (superToChoi din dout (mat (din * din) l))
+      if op = "hf2s" then
+        if l.size ≠ (din * dout) * (din * dout) then return "bad-op"
+        return flat (dout * dout) (din * din) (superOfMap din dout (applyChoi din dout (mat (din * dout) l)))
       if op = "bloch" then return handleBloch din dout l
       if op = "hf2c" then
         if l.size ≠ (din * dout) * (din * dout) then return "bad-op"
